@@ -642,7 +642,7 @@ func paramNotFromCache(c *km.Ctx, s *km.Sem, fn *ssa.Function, p *ssa.Parameter,
 		}
 		a := km.CallArgs(ci.Common())
 		if ok2, why := notFromCacheOnPaths(c, s, cs.Instr, a[idx], load, depth-1); !ok2 {
-			return false, why + " -> " + fn.Name()
+			return false, why + " -> " + km.NameOf(fn)
 		}
 	}
 	return true, "all callers pass a profile that is not from the cache"
